@@ -11,6 +11,7 @@ for k in a b c; do
   if [ "$R" = "r3" ]; then t=$(echo $k | tr abc fgh); fi
   if [ "$R" = "r4" ]; then t=$(echo $k | tr abc ijk); fi
   if [ "$R" = "r5" ]; then t=$(echo $k | tr abc lmn); fi
+  if [ "$R" = "r6" ]; then t=$(echo $k | tr abc opq); fi
   dst=/verif/seeded/$ID$t
   mkdir -p $dst
   cp -r $src/. $dst/
@@ -18,7 +19,8 @@ for k in a b c; do
   /verif/bin/seedrun.py confirm $dst > $dst/confirm.json
   python3 -c "import json;c=json.load(open('$dst/confirm.json'));print({k:v for k,v in c.items() if not k.endswith('tail')})"
   echo "== $ID$t check"
-  /verif/bin/seedrun.py check $dst quick > $dst/check_quick.json
+  # FIRST=<a checkout of /verif at the commit the round started from>: the first verdict is measured there
+  ${FIRST:-/verif}/bin/seedrun.py check $dst quick > $dst/check_quick.json
   python3 -c "import json;c=json.load(open('$dst/check_quick.json'));[print(p,v['killed'],v['rc'],v['wall_s'],v['first'][:300]) for p,v in c.items()]"
   cp $dst/check_quick.json $dst/check_quick_first.json
 done
